@@ -90,7 +90,7 @@ func cmdCheck(args []string) int {
 		fmt.Fprintln(os.Stderr, "gvc: cannot load repository:", err)
 		return 2
 	}
-	to := 10 * time.Second
+	to := 20 * time.Second
 	if tier == "thorough" {
 		to = 60 * time.Second
 	}
